@@ -52,6 +52,16 @@ func verifDir() string {
 	return "/verif"
 }
 
+// outDir is where evidence and replay files go: /verif unless GCSIM_OUT redirects them
+// (runs against seeded changes in scratch worktrees must not overwrite the evidence of
+// the unchanged tree).
+func outDir() string {
+	if d := os.Getenv("GCSIM_OUT"); d != "" {
+		return d
+	}
+	return verifDir()
+}
+
 func repoDir() string {
 	if d := os.Getenv("GCSIM_REPO"); d != "" {
 		return d
